@@ -12,6 +12,7 @@ import (
 
 	"github.com/hashicorp/raft"
 	"github.com/rqlite/rqlite/v10/internal/fsutil"
+	"github.com/rqlite/rqlite/v10/internal/vhook"
 	"github.com/rqlite/rqlite/v10/snapshot/proto"
 	pb "google.golang.org/protobuf/proto"
 )
@@ -133,9 +134,11 @@ func (s *Sink) Write(p []byte) (n int, err error) {
 					return n, err
 				}
 				if dueNext == Full {
+					vhook.Trace(s.dir, "sink.hdr", "id", s.meta.ID, "kind", "inc", "ok", false)
 					return n, fmt.Errorf("full snapshot needed before incremental can be applied")
 				}
 			}
+			vhook.Trace(s.dir, "sink.hdr", "id", s.meta.ID, "kind", "inc", "ok", true)
 			// No data follows this header type. Any leftover bytes are an error.
 			if s.buf.Len() > 0 {
 				return n, fmt.Errorf("unexpected data after incremental file header")
@@ -218,6 +221,7 @@ func (s *Sink) Close() (retErr error) {
 		if err := os.Rename(s.localWALDir, movedDir); err != nil {
 			return fmt.Errorf("failed to move WAL directory into snapshot directory: %v", err)
 		}
+		vhook.Crash("sink.close.moved")
 		sd := NewStagingDir(movedDir)
 		if err := sd.MoveWALFilesTo(s.snapTmpDirPath); err != nil {
 			return fmt.Errorf("failed to move WAL files into snapshot directory: %v", err)
@@ -230,10 +234,12 @@ func (s *Sink) Close() (retErr error) {
 			return fmt.Errorf("failed to close sink: %v", err)
 		}
 	}
+	vhook.Crash("sink.close.wals")
 
 	if err := writeMeta(s.snapTmpDirPath, s.meta); err != nil {
 		return fmt.Errorf("failed to write meta: %v", err)
 	}
+	vhook.Crash("sink.close.meta")
 
 	if err := fsutil.SyncDirMaybe(s.snapTmpDirPath); err != nil {
 		return err
@@ -241,12 +247,15 @@ func (s *Sink) Close() (retErr error) {
 	if err := os.Rename(s.snapTmpDirPath, s.snapDirPath); err != nil {
 		return fmt.Errorf("failed to rename snapshot directory: %v", err)
 	}
+	vhook.Trace(s.dir, "sink.close.renamed", "id", s.meta.ID, "inc", s.localWALDir != "")
+	vhook.Crash("sink.close.renamed")
 
 	if s.stc != nil {
 		if err := s.stc.SetDueNext(Incremental); err != nil {
 			return fmt.Errorf("failed to set due next to incremental: %v", err)
 		}
 	}
+	vhook.Crash("sink.close.flag")
 	if err := fsutil.SyncDirMaybe(s.dir); err != nil {
 		return err
 	}
